@@ -903,6 +903,49 @@ def chain_program(rng):
   return dsrc, program_src(items)
 
 
+def chain_family():
+  """deterministic (dep source, upstream source) pairs for K3: (a) classes and methods of the upstream module under the
+  decorators a stub can carry (typing.final in its spellings, dataclass, property, staticmethod, classmethod), read
+  through every transport; (b) container literals around pytype's large-literal threshold (15 entries) whose entries
+  are themselves parameterised values of one class with different contents."""
+  dep = "_L = [0, 0, 0]\nclass D0:\n  da = 1\ndx = 1\n"
+  out = []
+  # (a)  (dataclasses / typing_extensions have no stub in the sandbox's empty typeshed: not usable here)
+  for imp, deco in (("from typing import final", "@final"), ("import typing", "@typing.final"),
+                    ("import typing as t", "@t.final"), ("from typing import final as fin", "@fin")):
+    a = ("%s\nimport dep\n%s\nclass Lexer:\n"
+         "  def __init__(self, src):\n    self.ia0 = src\n    self.ia1 = len(src)\n"
+         "  def tokens(self):\n    return self.ia0.split()\n"
+         "  def first(self):\n    return (self.ia0, self.ia1)\n"
+         "class Plain:\n  pa = [1]\n  def mk(self):\n    return Lexer('q')\n"
+         "%s\nclass Leaf(Plain):\n  la = (1, 's')\n"
+         "lx = Lexer('q')\ndef mk():\n  return Lexer('w')\npairs = [(Lexer('a'), 1)]\nlf = Leaf()\n" % (imp, deco, deco))
+    out.append((dep, a))
+  a = ("from typing import final\nimport dep\nclass M:\n  def __init__(self):\n    self.ia0 = {'k': 1.5}\n"
+       "  @final\n  def fin(self):\n    return [self.ia0]\n"
+       "  @staticmethod\n  def st(p0=1):\n    return {p0: None}\n"
+       "  @classmethod\n  def cl(cls):\n    return cls()\n"
+       "  @final\n  @classmethod\n  def fcl(cls, p0='s'):\n    return (cls(), p0)\n"
+       "m = M()\nms = M.st()\nmc = M.cl()\nmf = m.fin()\nmg = M.fcl()\n")
+  out.append((dep, a))
+  # (b)
+  def entries(n, mk):
+    return ", ".join(mk(i) for i in range(n))
+  for n in (14, 15, 16, 17, 24):
+    a = ("import dep\n"
+         "LIMITS = {%s}\n" % entries(n, lambda i: "'k%d': %s" % (i, "[%d, %d]" % (i, i + 1) if i % 3 else "['fast', 'safe']")) +
+         "ROWS = [%s]\n" % entries(n, lambda i: "(%d, 's')" % i if i % 4 else "(None, 2.5)") +
+         "OPTS = [%s]\n" % entries(n, lambda i: "{%d: 's'}" % i if i % 5 else "{'x': None}") +
+         "NEST = (%s,)\n" % entries(n, lambda i: "[%d]" % i if i % 2 else "['s']") +
+         "SETS = [%s]\n" % entries(n, lambda i: "{%d}" % i if i % 3 else "{'e', None}") +
+         "FLAT = [%s]\n" % entries(n, lambda i: str(i) if i % 6 else "'s'") +
+         "def which():\n  return 'k1'\n"
+         "class Cfg:\n  table = {%s}\n" % entries(n, lambda i: "%d: [%s]" % (i, "1.5" if i % 2 else "b'b'")) +
+         "  def __init__(self):\n    self.ia0 = [%s]\n" % entries(n, lambda i: "[dep.D0()]" if i % 2 else "[None]"))
+    out.append((dep, a))
+  return out
+
+
 def chain_task(args):
   """K3: the property read literally.  Upstream reveal_type (what A's analysis infers) against downstream reveal_type
   of the same expression through A's emitted stub, per transport; dependency chain dep <- a <- b."""
@@ -997,8 +1040,10 @@ def correspond(res, rng, tier):
     programs = [Gen(rng).program() for _ in range(npairs)]
     cases = eval_pairs(pool, [program_src(p) for p in programs])
     nchain = 48 if tier == "quick" else 400
-    chains = pool.map(chain_task, [(i,) + chain_program(rng) for i in range(nchain)], chunksize=1)
-  k3 = {"chains": len(chains), "skipped": 0, "reads_compared": 0, "failing_chains": 0}
+    fam = chain_family()
+    chains = pool.map(chain_task, [(i,) + cp for i, cp in enumerate(fam + [chain_program(rng) for _ in range(nchain)])],
+                      chunksize=1)
+  k3 = {"chains": len(chains), "family_chains": len(fam), "skipped": 0, "reads_compared": 0, "failing_chains": 0}
   for c in chains:
     if c.get("skipped"):
       k3["skipped"] += 1
